@@ -160,3 +160,82 @@ func c11extAs(R string) RuleFunc {
 		}
 	}
 }
+
+// c02extpanic: calls into third-party code run under a recover.
+func c02extpanic(c *core.Ctx) {
+	const R = "C02.extpanic"
+	c.Rule(R, "every call from the module into a third-party package (neither the module nor the standard library: today github.com/lucasjones/reggen, the regex example generator) sits in a function that installs a deferred recover, so a panic raised inside that code (reggen panics with `invalid argument to Intn` on a character class without ASCII members) comes back as an error value. The module's own panic analysis cannot look inside such code")
+	c.Floor(R, 1)
+	isStd := func(path string) bool {
+		first := strings.Split(path, "/")[0]
+		return !strings.Contains(first, ".")
+	}
+	n := 0
+	var fs []*ssa.Function
+	for f := range c.P.AllFuncs {
+		if c.P.FuncInScope(f) && f.Blocks != nil {
+			fs = append(fs, f)
+		}
+	}
+	sort.Slice(fs, func(i, j int) bool { return fs[i].String() < fs[j].String() })
+	for _, f := range fs {
+		hasRecover := false
+		for _, b := range f.Blocks {
+			for _, in := range b.Instrs {
+				if d, ok := in.(*ssa.Defer); ok {
+					if cl, ok := d.Call.Value.(*ssa.MakeClosure); ok {
+						if fn, ok := cl.Fn.(*ssa.Function); ok {
+							for _, bb := range fn.Blocks {
+								for _, i2 := range bb.Instrs {
+									if call, ok := i2.(*ssa.Call); ok {
+										if bi, ok := call.Call.Value.(*ssa.Builtin); ok && bi.Name() == "recover" {
+											hasRecover = true
+										}
+									}
+								}
+							}
+						}
+					}
+					if fn, ok := d.Call.Value.(*ssa.Function); ok {
+						for _, bb := range fn.Blocks {
+							for _, i2 := range bb.Instrs {
+								if call, ok := i2.(*ssa.Call); ok {
+									if bi, ok := call.Call.Value.(*ssa.Builtin); ok && bi.Name() == "recover" {
+										hasRecover = true
+									}
+								}
+							}
+						}
+					}
+				}
+			}
+		}
+		seen := map[string]bool{}
+		for _, b := range f.Blocks {
+			for _, in := range b.Instrs {
+				call, ok := in.(ssa.CallInstruction)
+				if !ok {
+					continue
+				}
+				sc := call.Common().StaticCallee()
+				if sc == nil || sc.Pkg == nil || c.P.FuncInModule(sc) {
+					continue
+				}
+				path := sc.Pkg.Pkg.Path()
+				if sc.Name() == "init" || f.Name() == "init" {
+					continue // package initialisation chain
+				}
+				if isStd(path) || strings.HasPrefix(path, "golang.org/x/") {
+					continue
+				}
+				key := core.FuncName(f) + ":" + sc.String()
+				if seen[key] {
+					continue
+				}
+				seen[key] = true
+				n++
+				c.Check(hasRecover, R, key, c.P.Pos(in.Pos()), "call of third-party "+sc.String()+" in "+core.FuncName(f), "a panic raised inside the third-party code escapes to the caller of the public API (no deferred recover in this function)")
+			}
+		}
+	}
+}
